@@ -34,9 +34,13 @@ LEVEL = "exploration"
 DT = 0.4
 
 # tolerances: relative to max |exact gradient entry| of the case (fixed after measuring, see run())
-TOL_USER = 1e-9        # user-supplied (Frechet) propagator derivatives: no numerical differentiation anywhere
-TOL_NUM = 1e-6         # numdifftools Jacobian of the half-step propagator inside the library
-TOL_STATE = 1e-10      # reported dynamics vs forward simulation (same tensors, no truncation in between)
+# No truncation happens between the process tensor handed to the library and the one read by the oracle (same object),
+# so deviations are plain floating point (user derivatives) or the accuracy of numdifftools' Richardson extrapolation.
+# Measured over the whole thorough alphabet on a tree in which the property holds (suggested repairs applied):
+# user 3.2e-14, numdifftools 1.8e-11, dynamics 1.1e-15;  smallest effect of the known order defect 3e-3.
+TOL_USER = 1e-11       # user-supplied (Frechet) propagator derivatives: no numerical differentiation anywhere
+TOL_NUM = 1e-8         # numdifftools Jacobian of the half-step propagator inside the library
+TOL_STATE = 1e-12      # reported dynamics vs forward simulation (same tensors, no truncation in between)
 TOL_CROSS = 1e-10      # oracle (T) vs oracle (J)
 MIN_GRAD = 1e-3        # vacuity: max |exact gradient entry| of a non-trivial case
 MIN_ENV_EFFECT = 0.05  # vacuity: relative change of the exact gradient caused by the environment(s)
@@ -442,9 +446,10 @@ def build_cases(tier):
         cases.append({"fam": fam, "d": d, "n": n, "m": m, "model": model, "env": env, "target": tgt, "deriv": deriv,
                       "table": table, "start": start})
 
-    ns, ms = [1, 2, 3], [1, 2, 3]
-    models = ["H", "rate", "jump"] + (["all"] if thorough else [])
-    envs = ["anc1", "anc2c", "anc2n", "tempo1", "tempo2"] + (["anc2g", "anc2n_rev", "anc3", "tempo2_rev"] if thorough else [])
+    ns = [1, 2, 3] + ([4] if thorough else [])
+    ms = [1, 2, 3]
+    models = ["H", "rate", "jump", "all"]
+    envs = ["anc1", "anc2c", "anc2n", "tempo1", "tempo2", "anc2n_rev", "anc3", "tempo2_rev"] + (["anc2g"] if thorough else [])
     targets = ["matrix", "purity"] + (["state", "nonlin"] if thorough else [])
     derivs = ["user", "num"]
     tables = ["generic", "ones"] + (["zero"] if thorough else [])
@@ -453,11 +458,11 @@ def build_cases(tier):
     # d = 3 system (ancilla environments only; e != d somewhere)
     n3 = [1, 2, 3] if thorough else [2]
     m3 = [1, 2, 3] if thorough else [2]
-    e3 = ["anc1", "anc2c", "anc2n"] + (["anc2g", "anc3"] if thorough else [])
+    e3 = ["anc1", "anc2c", "anc2n", "anc3"] + (["anc2g"] if thorough else [])
     for n, m, model, env, tgt, deriv in itertools.product(n3, m3, models, e3, targets, ["user"] + (["num"] if thorough else [])):
         add(3, n, m, model, env, tgt, deriv, "generic", fam="d3")
     # non-zero start time (time axis of the reported dynamics)
-    for n, env, deriv in itertools.product([1, 3], ["anc1", "tempo2"], derivs):
+    for n, env, deriv in itertools.product([2, 3], ["anc1", "tempo2"], derivs):
         add(2, n, 2, "rate", env, "matrix", deriv, "generic", start=1.7, fam="start")
     # remaining targets in the quick tier (reduced product)
     if not thorough:
@@ -568,10 +573,10 @@ def run(tier, seed):
         "distinct_nontrivial": len(nontrivial),
         "trivial_cases": len(trivial),
         "trivial_samples": trivial[:3],
-        "rule": "full Cartesian product N{1,2,3} x M{1,2,3} x model x environment set x target x propagator-derivative "
-                "kind x parameter table for d=2 (quick: models H/rate/jump, 5 environment sets, targets matrix/purity, "
-                "tables generic/ones; thorough: + model 'all', 4 more environment sets incl. 3 environments and reversed "
-                "lists, targets state/nonlin, table zero), plus full sub-products for d=3, non-zero start time, remaining "
+        "rule": "full Cartesian product N{1,2,3} x M{1,2,3} x model{H,rate,jump,all} x environment set x target x "
+                "propagator-derivative kind x parameter table for d=2 (quick: 8 environment sets incl. three environments "
+                "and reversed lists, targets matrix/purity, tables generic/ones; thorough: + N=4, a pair of generic "
+                "joint-unitary environments, targets state/nonlin, table zero), plus full sub-products for d=3, non-zero start time, remaining "
                 "targets, and process tensors closed by a non-trivial last cap; every one of the 2N x M gradient entries, "
                 "every reported state, final_state and the time axis are compared.  A case counts as non-trivial iff the "
                 f"largest exact gradient entry exceeds {MIN_GRAD} and the environments change the exact gradient by more "
